@@ -178,7 +178,7 @@ def run(ctx):
                    nontrivial=lambda c, m: sexp.dumps(c[1]), describe=describe, env=env, shards=16)
     ctx.extra["exhaustive"] = not thorough or ngroups == 3
     # the same properties on the real binary, end to end
-    if not ctx.violations:
+    if not ctx.has_failing_input():
         build.ensure_vsb()
         e2e(ctx, rng, 240 if thorough else 24)
         ctx.rule += (" End to end: %d generated (local storage, cloud state, limit, create / upload faults) cases per run, the real `vsb upload` with real "
